@@ -46,6 +46,7 @@ Payload(id) ==
     [] id = "U1" -> [ok |-> TRUE, items |-> <<KV("RLIMIT_NOFILE", "10:5")>>]            \* "nofile"
     [] id = "U2" -> [ok |-> TRUE, items |-> <<KV("RLIMIT_CORE", "0:0"), KV("RLIMIT_NPROC", "7:7")>>]  \* "RLIMIT_CORE", "Rlimit_nproc"
     [] id = "U3" -> [ok |-> TRUE, items |-> <<KV("RLIMIT_AS", "9:1")>>]
+    [] id = "Uzero" -> [ok |-> TRUE, items |-> <<KV("RLIMIT_CORE", "0:0")>>]            \* neither hard nor soft given
     [] id = "U4" -> [ok |-> TRUE, items |-> <<KV("RLIMIT_STACK", "8:8")>>]
     [] id \in {"Uempty", "Dempty", "Mempty", "Cempty"} -> [ok |-> TRUE, items |-> <<>>]   \* present, describing nothing
     [] id = "Uinf1" -> [ok |-> TRUE, items |-> <<KV("RLIMIT_NOFILE", "18446744073709551615:65536")>>]
@@ -83,6 +84,8 @@ CONSTANTS Mode
 VARIABLES sc, emitted
 
 Names == {"c1", "c1x", "a.b"}
+Long53 == "c2345678901234567890123456789012345678901234567890123"
+Long60 == Long53 \o "-suffix"
 Other(n) == IF n = "c1" THEN "c1x" ELSE IF n = "c1x" THEN "c1" ELSE "a"     \* names that are prefixes of one another
 Ann(k, s, n, id) == [key |-> k, scope |-> s, name |-> n, id |-> id]
 
@@ -121,6 +124,16 @@ Combined ==
   \cup {[ctr |-> "c1", anns |-> {Ann("ulim", "ctr", "c1", u)} \cup x] :
           u \in {"UallL", "UallP", "UallM", "Utype3", "Utype4", "Utype5", "Utype6", "Utype7", "Utype8"},
           x \in {{}, {Ann("dev", "ctr", "c1", "D1")}}}
+
+  \* every rlimit payload addressed to the container itself (U2 has a limit of 0:0 - it is a limit like any other;
+  \* Uzero gives neither value: 0:0 as well)
+  \cup {[ctr |-> "c1", anns |-> {Ann("ulim", "ctr", "c1", u)}] : u \in {"U2", "U3", "U4", "Uzero"}}
+  \* container names longer than what fits a Kubernetes annotation name together with the prefix, one a prefix of the
+  \* other: each is addressed by its full name only
+  \cup UNION {{[ctr |-> Long60, anns |-> {Ann(k, "ctr", Long53, Good(k)[2])} \cup x],
+               [ctr |-> Long60, anns |-> {Ann(k, "ctr", Long60, Good(k)[1]), Ann(k, "ctr", Long53, Good(k)[2])} \cup x],
+               [ctr |-> Long53, anns |-> {Ann(k, "ctr", Long60, Good(k)[2])} \cup x]} :
+              k \in Keys, x \in {{}, {Ann("dev", "pod", "", "D3")}}}
 
 \* one annotation per (key, scope, addressee): they are keys of one map
 Distinct(anns) == \A a, b \in anns : (a.key = b.key /\ a.scope = b.scope /\ a.name = b.name) => a = b
